@@ -788,3 +788,95 @@ def shape_attached_let_simple_join(p):
             if lets & {t[1] for t in c2[2] if t[0] == "v"}:
                 return True
     return False
+
+
+# ------------------------------------------------------------------ a variable bound by the FIRST clause repeated inside the SECOND
+# (no desugaring applies: both occurrences are index columns of the second clause; the equality of the two columns is
+# implied by the lookup key only as long as the second clause is looked up, never iterated first)
+
+def add_join_repeat(rng, p):
+    """appends a rule  h(..) <-- p(x, ..), q(.., x, .., x, ..) [, more]  whose first two body items are plain clauses;
+    returns dict(p=rel name, q=rel name, ppos=column of x in p, qpos=(i, j) columns of x in q) or None"""
+    rels = p["rels"]
+    level = p.get("level", {})
+    qs = [r for r in rels if r[1] >= 2]
+    if not qs:
+        return None
+    q = rng.choice(qs)
+    others = [r for r in rels if r[0] != q[0]]
+    pr = rng.choice(others) if others and rng.random() < 0.9 else q
+    top = max(level.values()) if level else 0
+    heads_ok = [r for r in rels if level.get(r[0], 0) == top]
+    h = rng.choice(heads_ok)
+    pvars = ["x%d" % (k + 1) for k in range(pr[1])]
+    ppos = rng.randrange(pr[1])
+    x = pvars[ppos]
+    i, j = sorted(rng.sample(range(q[1]), 2))
+    qargs, nv, scope = [], pr[1], list(pvars)
+    for k in range(q[1]):
+        if k in (i, j):
+            qargs.append(("v", x))
+        elif rng.random() < 0.6:
+            nv += 1
+            qargs.append(("v", "x%d" % nv))
+            scope.append("x%d" % nv)
+        elif rng.random() < 0.5:
+            qargs.append(("w",))
+        else:
+            qargs.append(("v", rng.choice([y for y in pvars if y != x] or [x])))
+    body = [("clause", pr[0], [("v", y) for y in pvars], []), ("clause", q[0], qargs, [])]
+    u = rng.random()
+    if u < 0.2:
+        body.append(("cond", ("if", "le", [rng.choice(scope), rng.choice(scope)])))
+    elif u < 0.35:
+        r3 = rng.choice(rels)
+        body.append(("clause", r3[0], [("v", rng.choice(scope)) if rng.random() < 0.6 else ("w",) for _ in range(r3[1])], []))
+    hargs = [("v", x if k == 0 else rng.choice(scope)) for k in range(h[1])]
+    p["rules"].insert(rng.randrange(len(p["rules"]) + 1), dict(heads=[(h[0], hargs)], body=body))
+    return dict(p=pr[0], q=q[0], ppos=ppos, qpos=(i, j), parity=pr[1], qarity=q[1])
+
+
+def join_repeat_inputs(rng, p, info):
+    """input databases aimed at the rule of add_join_repeat: q holds a tuple whose two columns DIFFER (a, b) while p holds
+    b (and a); relative sizes both ways (|q| < |p| and |q| > |p|: the run-time choice of the join order), plus one at random"""
+    out = []
+    i, j = info["qpos"]
+    for small_q in (True, False):
+        inp, _ = gen_dl.gen_input(rng, p["rels"], style=rng.choice(["small", "mixed"]))
+        a, b = rng.sample(DOM, 2)
+
+        def qt(u, v):
+            t = [rng.choice(DOM) for _ in range(info["qarity"])]
+            t[i], t[j] = u, v
+            return tuple(t)
+
+        def pt(u):
+            t = [rng.choice(DOM) for _ in range(info["parity"])]
+            t[info["ppos"]] = u
+            return tuple(t)
+        if info["p"] == info["q"]:
+            ts = [qt(a, b), pt(b), pt(a)] + [qt(rng.choice(DOM), rng.choice(DOM)) for _ in range(rng.choice([1, 4]))]
+            inp[info["q"]] = list(dict.fromkeys(ts))
+        else:
+            nq, npp = (rng.choice([1, 2, 3]), rng.choice([8, 11, 14])) if small_q else (rng.choice([9, 12, 15]), rng.choice([1, 2, 3]))
+            qts = [qt(a, b)] + [qt(rng.choice(DOM), rng.choice(DOM)) for _ in range(nq - 1)]
+            pts = [pt(b)] + ([pt(a)] if npp > 1 else []) + [pt(rng.choice(DOM)) for _ in range(max(0, npp - 2))]
+            inp[info["q"]] = list(dict.fromkeys(qts))
+            inp[info["p"]] = list(dict.fromkeys(pts))
+        out.append(inp)
+    out.append(gen_dl.gen_input(rng, p["rels"], style=rng.choice(["mixed", "dense"]))[0])
+    return out
+
+
+def count_join_repeat(p):
+    """conjunctions whose first two items are clauses and whose second clause repeats, as plain arguments, a variable
+    bound by the first clause"""
+    n = 0
+    for r in p["rules"]:
+        for conj in disj_product(r["body"]):
+            if len(conj) >= 2 and conj[0][0] == "clause" and conj[1][0] == "clause":
+                first = {t[1] for t in conj[0][2] if t[0] == "v"}
+                vs = [t[1] for t in conj[1][2] if t[0] == "v"]
+                if any(vs.count(x) > 1 and x in first for x in set(vs)):
+                    n += 1
+    return n
